@@ -2,6 +2,8 @@ package main
 
 import (
 	"fmt"
+	"github.com/cespare/xxhash/v2"
+	"go/token"
 	"go/types"
 	"hash/crc32"
 	"math"
@@ -205,33 +207,21 @@ func installStd(m *Machine) {
 			}
 			args[i] = r.numTerm(n)
 		}
+		var res *Term
 		if !sym {
-			return Num{W: 32, C: uint64(crc32.ChecksumIEEE(conc))}
+			res = r.TT.BV(32, uint64(crc32.ChecksumIEEE(conc)))
+		} else if t := r.tabulateHash(args, 32, func(b []byte) uint64 { return uint64(crc32.ChecksumIEEE(b)) }); t != nil {
+			res = t
+		} else {
+			res = r.TT.mk(fmt.Sprintf("uf:crc32_%d", len(bs)), 32, 0, "", args...)
 		}
-		app := r.TT.mk(fmt.Sprintf("uf:crc32_%d", len(bs)), 32, 0, "", args...)
-		// CRC-32 detects every single-byte error (lemmas L1-L3): instantiate against earlier applications
-		for _, prev := range r.crcApps[len(bs)] {
-			if prev == app {
-				continue
-			}
-			var diffs []*Term
-			for i := range args {
-				e := r.TT.Eq(args[i], prev.args[i])
-				if e.op == "true" {
-					continue
-				}
-				diffs = append(diffs, r.TT.Not(e))
-			}
-			if len(diffs) == 1 {
-				r.assume(r.TT.Or(r.TT.Not(diffs[0]), r.TT.Not(r.TT.Eq(app, prev))))
-				r.Axioms++
-			}
+		// CRC-32 detects every single-byte error (lemmas L1-L3): instantiated against earlier computations of the
+		// same length that differ in exactly one argument position
+		r.hashRecord("crc", args, res, true)
+		if res.op == "const" {
+			return Num{W: 32, C: res.val}
 		}
-		if r.crcApps == nil {
-			r.crcApps = map[int][]*Term{}
-		}
-		r.crcApps[len(bs)] = append(r.crcApps[len(bs)], app)
-		return Num{W: 32, T: app}
+		return Num{W: 32, T: res}
 	}
 	for _, n := range []string{"Log", "Ceil", "Round", "Exp"} {
 		n := n
@@ -323,10 +313,31 @@ func installStd(m *Machine) {
 	I["github.com/cespare/xxhash/v2.Sum64"] = func(r *Run, fr *Frame, a []Value) Value {
 		bs := a[0].(Slice).S
 		args := make([]*Term, len(bs))
+		sym := false
+		conc := make([]byte, len(bs))
 		for i, b := range bs {
-			args[i] = r.numTerm(b.(Num))
+			n := b.(Num)
+			args[i] = r.numTerm(n)
+			if n.T != nil {
+				sym = true
+			} else {
+				conc[i] = byte(n.C)
+			}
 		}
-		return Num{W: 64, T: r.TT.mk(fmt.Sprintf("uf:xxh_%d", len(bs)), 64, 0, "", args...)}
+		var res *Term
+		if !sym {
+			res = r.TT.BV(64, xxhash.Sum64(conc))
+		} else if t := r.tabulateHash(args, 64, func(b []byte) uint64 { return xxhash.Sum64(b) }); t != nil {
+			res = t
+		} else {
+			res = r.TT.mk(fmt.Sprintf("uf:xxh_%d", len(bs)), 64, 0, "", args...)
+		}
+		// ideal-checksum assumption: within one path, computations over different arguments give different results
+		r.hashRecord("xxh", args, res, false)
+		if res.op == "const" {
+			return Num{W: 64, C: res.val}
+		}
+		return Num{W: 64, T: res}
 	}
 	I["github.com/klauspost/compress/zstd.NewWriter"] = func(r *Run, fr *Frame, a []Value) Value {
 		cell := new(Value)
@@ -340,6 +351,6 @@ func installStd(m *Machine) {
 	}
 	I["(time.Time).UnixNano"] = func(r *Run, fr *Frame, a []Value) Value { return a[0].(Struct)[1] }
 	I["time.Since"] = func(r *Run, fr *Frame, a []Value) Value {
-		return Num{W: 64, Signed: true, C: uint64(r.Clock) - a[0].(Struct)[1].(Num).C}
+		return r.numBinop(token.SUB, Num{W: 64, Signed: true, C: uint64(r.Clock)}, a[0].(Struct)[1].(Num))
 	}
 }
